@@ -36,8 +36,9 @@
 //!  3. the walker's own encoding equals `tx.to_bytes()` (validates the walker itself);
 //!  4. every accessor gives the same answer on the precomputed transaction.
 //!
-//! Keys: `C04:<owner>:<accessor>:<class>`; owner = tx kind, `Input::Variant` or
-//! `Output::Variant`; class in {offset, bytes, length, missing, out-of-range,
+//! Keys: `C04:<owner>:<accessor>:<class>`; owner = tx kind (`Chargeable` for the cached
+//! input/output/witness tables shared by all kinds), `InputRepr::Coin|Contract|Message`
+//! for the per-wire-type tables, `Input::Variant` or `Output::Variant`; class in {offset, bytes, length, missing, out-of-range,
 //! cached-differs, encoding, panic}. Within one transaction a wrong offset whose error
 //! (reported − expected) equals an error already reported for an earlier field of the
 //! same transaction is counted as a cascade, not as another violation.
@@ -233,8 +234,13 @@ impl Rec {
 }
 
 fn observe_input(r: &mut Rec, base: &str, inp: &Input) {
-    let o = input_class(inp);
     let rp: InputRepr = inp.repr();
+    // the InputRepr tables are per wire type (Coin / Contract / Message), not per variant
+    let o = match rp {
+        InputRepr::Coin => "InputRepr::Coin",
+        InputRepr::Contract => "InputRepr::Contract",
+        InputRepr::Message => "InputRepr::Message",
+    };
     let is_coin = rp == InputRepr::Coin;
     let is_msg = rp == InputRepr::Message;
     let is_contract = rp == InputRepr::Contract;
@@ -312,7 +318,8 @@ fn observe_input(r: &mut Rec, base: &str, inp: &Input) {
     r.rel(o, "InputRepr::message_nonce_offset", rp.message_nonce_offset(), base, p("nonce"), inp.nonce().map(|b| b.to_vec()));
     r.rel(o, "InputRepr::tx_pointer_offset", rp.tx_pointer_offset(), base, p("txPointer"), inp.tx_pointer().map(|t| t.to_bytes()));
 
-    // static helpers
+    // static helpers and value-dependent accessors belong to the Input variant
+    let o = input_class(inp);
     if is_coin {
         r.rel(o, "Input::coin_predicate_offset()", Some(Input::coin_predicate_offset()), base, p("predicate"), None);
     }
@@ -320,7 +327,6 @@ fn observe_input(r: &mut Rec, base: &str, inp: &Input) {
         r.rel(o, "Input::message_data_offset()", Some(Input::message_data_offset()), base, p("data"), None);
     }
 
-    // value-dependent accessors on Input
     r.rel(
         o,
         "Input::predicate_offset",
@@ -850,8 +856,11 @@ fn check_value(tx: &Transaction, descr: &str, case: &Value, acc: &mut Acc, refus
                             continue
                         }
                         acc.outcome("VIOLATION_cached_differs");
+                        // the cached tables of inputs / outputs / witnesses are filled by code shared by all kinds
+                        let shared = ["Inputs::", "Outputs::", "Witnesses::"].iter().any(|p| a.acc.starts_with(p));
+                        let owner = if shared && a.base.is_none() && !a.owner.starts_with("Input::") { "Chargeable" } else { a.owner.as_str() };
                         acc.viol(
-                            format!("C04:{}:{}:cached-differs", a.owner, a.acc),
+                            format!("C04:{owner}:{}:cached-differs", a.acc),
                             &|| format!(
                                 "{} reports {:?}{} without metadata and {:?}{} after precompute, in {descr}",
                                 obs_name(a),
